@@ -46,7 +46,17 @@ pub enum Probe {
     Hc(uv::HcProbe),
     Client(uv::ClientProbe),
     Server(uv::ServerProbe),
+    Rate(RateProbe),
     None,
+}
+
+#[derive(Clone, Debug)]
+pub struct RateProbe {
+    pub send_rate: u32,
+    pub max_send_rate: u32,
+    pub rtt_s: Option<f64>,
+    pub mode: u8,
+    pub nofeedback_exp_ms: Option<u64>,
 }
 
 #[derive(Clone, Debug)]
@@ -243,6 +253,7 @@ enum EpObj {
     Client(Box<uflow::client::Client>),
     Server(Box<uflow::server::Server>),
     Raw,
+    Rate(Box<uv::SendRateComp>),
 }
 
 struct EpRt {
@@ -614,6 +625,10 @@ impl<'a> World<'a> {
                             d.word(c.state as u64);
                         }
                     }
+                    Probe::Rate(r) => {
+                        d.word(r.send_rate as u64 | (r.mode as u64) << 32);
+                        d.word(r.rtt_s.map_or(0, |x| x.to_bits()));
+                    }
                     Probe::None => d.word(0),
                 }
             }
@@ -724,7 +739,13 @@ impl<'a> World<'a> {
             v
         };
         let lname = link_name(src, dst_ep);
-        let fate = if let Some(f) = self.plan.fates.get(&lname).and_then(|m| m.get(&ord)) {
+        // after the `heal` mark the network is fair by definition of the scenario: recorded or
+        // drawn faults no longer apply (this keeps minimised plans, whose datagram ordinals have
+        // shifted, inside the scenario's assumptions)
+        let fair = self.healed && self.plan.param("fair_after_heal", 1.0) != 0.0;
+        let fate = if fair {
+            Fate::deliver(self.rule_for(src, dst_ep).latency_us)
+        } else if let Some(f) = self.plan.fates.get(&lname).and_then(|m| m.get(&ord)) {
             f.clone()
         } else if let Some(fs) = self.plan.fate_seed {
             self.draw_fate(src, dst_ep, ord, &bytes, fs)
@@ -822,7 +843,7 @@ impl<'a> World<'a> {
         let dst = d.dst;
         let accepted;
         match self.eps[dst].obj {
-            EpObj::None => {
+            EpObj::None | EpObj::Rate(_) => {
                 accepted = false;
                 self.stats.no_socket += 1;
             }
@@ -864,6 +885,7 @@ impl<'a> World<'a> {
             EpObj::Hc(hc) => Probe::Hc(hc.verif_probe()),
             EpObj::Client(c) => Probe::Client(c.verif_probe()),
             EpObj::Server(s) => Probe::Server(s.verif_probe()),
+            EpObj::Rate(r) => Probe::Rate(RateProbe { send_rate: r.verif_send_rate(), max_send_rate: r.verif_max_send_rate(), rtt_s: r.rtt_s(), mode: r.verif_mode_tag(), nofeedback_exp_ms: r.verif_nofeedback_exp_ms() }),
             _ => Probe::None,
         }
     }
@@ -1013,7 +1035,7 @@ impl<'a> World<'a> {
             Probe::Hc(_) => true,
             Probe::Client(p) => p.state <= 1,
             Probe::Server(p) => to.map_or(false, |t| p.clients.iter().any(|c| c.address == self.addrs[t] && c.state == 1)),
-            Probe::None => false,
+            Probe::Rate(_) | Probe::None => false,
         };
         let to_addr = to.map(|t| self.addrs[t]);
         let call_next = self.call + 1;
@@ -1070,6 +1092,9 @@ impl<'a> World<'a> {
                         }
                         EndpointKind::Raw => {
                             e.obj = EpObj::Raw;
+                        }
+                        EndpointKind::Rate { max_send_rate } => {
+                            e.obj = EpObj::Rate(Box::new(uv::SendRateComp::new(*max_send_rate)));
                         }
                     }
                     e.inbox.clear();
@@ -1235,7 +1260,7 @@ impl<'a> World<'a> {
                 self.stats.clock_jumps += 1;
                 self.harness_op(op, false, oracles);
             }
-            Op::Inject { to, from, bytes } => {
+            Op::Inject { to, from, bytes, .. } => {
                 self.stats.injected += 1;
                 self.harness_op(op, false, oracles);
                 let d = PendingDelivery { dst: *to, src_addr: self.addrs[*from], src: Some(*from), bytes: Rc::new(bytes.clone()) };
@@ -1254,6 +1279,32 @@ impl<'a> World<'a> {
             }
             Op::Mark { .. } => {
                 self.harness_op(op, false, oracles);
+            }
+            Op::RateSent { ep } => {
+                if !matches!(self.eps[*ep].obj, EpObj::Rate(_)) {
+                    self.harness_op(op, true, oracles);
+                    return;
+                }
+                let now_ms = self.local_ms(*ep);
+                self.guarded(*ep, op, oracles, move |e, _out| {
+                    if let EpObj::Rate(r) = &mut e.obj {
+                        r.notify_frame_sent(now_ms);
+                    }
+                });
+            }
+            Op::RateStep { ep, fb } => {
+                if !matches!(self.eps[*ep].obj, EpObj::Rate(_)) {
+                    self.harness_op(op, true, oracles);
+                    return;
+                }
+                let now_ms = self.local_ms(*ep);
+                let fb = *fb;
+                self.guarded(*ep, op, oracles, move |e, _out| {
+                    if let EpObj::Rate(r) = &mut e.obj {
+                        let feedback = fb.map(|(rtt_ms, receive_rate, loss_rate, rate_limited)| uv::FeedbackData { rtt_ms, receive_rate, loss_rate, rate_limited });
+                        r.step(now_ms, feedback, |_p: f64| ());
+                    }
+                });
             }
         }
     }
@@ -1303,7 +1354,7 @@ impl<'a> World<'a> {
                         }
                     }
                 }
-                Probe::None => (),
+                Probe::Rate(_) | Probe::None => (),
             }
         }
         true
